@@ -328,28 +328,40 @@ class Schema(dict, metaclass=LogicalMeta):
             # excluded by the error policy of the field / the options (a warning was given): nothing is assigned
             return
 
-        if field.property:
-            if callable(setter):
-                # @property.fset
-                setter(self, value)
-
-            # force calculate property
-            self.__coerce_property__(field, context=context)
-        else:
-            if field.is_no_output(value, options=self.__options__):
-                self.__dict__[field.attname] = value
-                # no output
-                if field.name in self:
-                    super().__delitem__(field.name)
-            else:
-                super().__setitem__(field.name, value)
-
+        before = None
         if field.dependants:
-            # need to update the dependant properties
-            for dep in field.dependants:
-                dep_field = self.__parser__.get_field(dep)
-                if dep_field and dep_field.property:
-                    self.__coerce_property__(dep_field, context=context)
+            # a dependant property that does not accept its new value makes the assignment fail as a whole
+            before = (dict(dict.items(self)), dict(self.__dict__))
+        try:
+            if field.property:
+                if callable(setter):
+                    # @property.fset
+                    setter(self, value)
+
+                # force calculate property
+                self.__coerce_property__(field, context=context)
+            else:
+                if field.is_no_output(value, options=self.__options__):
+                    self.__dict__[field.attname] = value
+                    # no output
+                    if field.name in self:
+                        super().__delitem__(field.name)
+                else:
+                    super().__setitem__(field.name, value)
+
+            if field.dependants:
+                # need to update the dependant properties
+                for dep in field.dependants:
+                    dep_field = self.__parser__.get_field(dep)
+                    if dep_field and dep_field.property:
+                        self.__coerce_property__(dep_field, context=context)
+        except Exception:
+            if before is not None:
+                dict.clear(self)
+                dict.update(self, before[0])
+                self.__dict__.clear()
+                self.__dict__.update(before[1])
+            raise
 
     def __setitem__(self, alias: str, value):
         if self.__options__.immutable:
